@@ -73,6 +73,7 @@ where
     let samples: Mutex<Vec<Vec<String>>> = Mutex::new(vec![]);
     let start = Instant::now();
     let divergence: Mutex<Option<String>> = Mutex::new(None);
+    let divergences = AtomicU64::new(0);
 
     let run_one = |prefix: Vec<Point>| -> (Chooser, Result<Exec, String>) {
         let mut ch = Chooser::new(prefix);
@@ -81,7 +82,8 @@ where
             Ok(e) => (ch, Ok(e)),
             Err(p) => {
                 if let Some(d) = p.downcast_ref::<ReplayDivergence>() {
-                    *divergence.lock().unwrap() = Some(d.0.clone());
+                    divergence.lock().unwrap().get_or_insert_with(|| d.0.clone());
+                    divergences.fetch_add(1, Ordering::Relaxed);
                     (ch, Err("replay divergence".into()))
                 } else {
                     let m = crate::take_last_panic().unwrap_or_else(|| "<panic>".into());
@@ -97,7 +99,11 @@ where
                 let mut local_out: HashSet<u64> = HashSet::new();
                 let mut idle_spins = 0u32;
                 loop {
-                    if divergence.lock().unwrap().is_some() {
+                    // a replayed prefix that meets different choice points: that execution is
+                    // abandoned; the search goes on for a while, because when it is the code
+                    // under test that behaves differently from run to run, an execution that
+                    // violates the property outright is usually close by
+                    if divergences.load(Ordering::Relaxed) > 200 {
                         break;
                     }
                     let item = stack.lock().unwrap().pop();
@@ -145,6 +151,9 @@ where
                                 }
                                 extend = false;
                             }
+                        }
+                        Err(m) if m == "replay divergence" => {
+                            extend = false;
                         }
                         Err(m) => {
                             let mut v = Violation::new("panic", format!("uncaught panic: {m}"));
@@ -207,39 +216,73 @@ where
         }
     });
 
+    let mut violations = violations.into_inner().unwrap();
     if let Some(d) = divergence.lock().unwrap().take() {
-        crate::machinery_error(&format!("{}: {d}", cfg.name));
+        if violations.is_empty() {
+            crate::machinery_error(&format!("{}: {d}", cfg.name));
+        }
+        // violations were found as well: they stand (each is re-executed below); the
+        // divergence is reported with them
+        eprintln!(
+            "note: {}: {} replayed prefixes met different choice points than recorded (first: {d}); on the unchanged tree none does, so the code under test behaves differently between runs of one schedule",
+            cfg.name,
+            divergences.load(Ordering::Relaxed)
+        );
     }
 
-    let mut violations = violations.into_inner().unwrap();
     violations.sort_by(|a, b| (a.choices.len(), &a.choices).cmp(&(b.choices.len(), &b.choices)));
     // determinism check of each distinct-signature violation: re-execute twice
     let mut checked: HashSet<String> = HashSet::new();
-    for v in &violations {
+    for v in violations.iter_mut() {
         if !checked.insert(v.sig.clone()) || checked.len() > 8 {
             continue;
         }
         if v.clause == "panic" || !cfg.recheck {
             continue;
         }
-        for _ in 0..2 {
+        // (identical on both re-executions, violating re-executions that differ)
+        let (mut identical, mut differing, mut last) = (0, 0, String::new());
+        for attempt in 0..8 {
+            // two identical re-executions settle it; when a re-execution differs, a few more
+            // are made so that a violation that shows only in some runs is seen again
+            if attempt >= 2 && (identical == 2 || identical + differing > 0) {
+                break;
+            }
             let mut ch = Chooser::from_choices(&v.choices);
             ch.verbose = false;
             let r = std::panic::catch_unwind(std::panic::AssertUnwindSafe(|| f(&mut ch)));
-            let (same, got) = match r {
+            match r {
                 Ok(e) => match e.violation {
-                    Some(w) => (w.clause == v.clause && w.detail == v.detail, format!("{}: {}", w.clause, w.detail)),
-                    None => (false, "no violation".to_string()),
+                    Some(w) if w.clause == v.clause && w.detail == v.detail => identical += 1,
+                    Some(w) => {
+                        differing += 1;
+                        last = format!("{}: {}", w.clause, w.detail);
+                    }
+                    None => last = "no violation".to_string(),
                 },
-                Err(_) => (false, "a panic".to_string()),
-            };
-            if !same {
-                crate::machinery_error(&format!(
-                    "{}: violation {} does not reproduce identically on re-execution (uncaptured nondeterminism)\n  first:  {}: {}\n  second: {}",
-                    cfg.name, v.sig, v.clause, v.detail, got
-                ));
+                Err(_) => {
+                    differing += 1;
+                    last = "a panic".to_string();
+                }
             }
         }
+        if identical == 2 {
+            continue;
+        }
+        if identical + differing == 0 {
+            // the schedule violated once and never again: nothing to stand on
+            crate::machinery_error(&format!(
+                "{}: violation {} does not reproduce on re-execution (uncaptured nondeterminism)\n  first:  {}: {}\n  then:   {}",
+                cfg.name, v.sig, v.clause, v.detail, last
+            ));
+        }
+        // The same schedule violates the property again, but not identically: the harness owns
+        // every choice (the unchanged tree reproduces bit for bit), so the code under test behaves
+        // differently between runs of one schedule. The violation stands and says so.
+        v.detail.push_str(&format!(
+            " [re-executing the same schedule violated the property again but not identically ({} identical; e.g. {}): the code under test is not deterministic under a fixed schedule]",
+            identical, last
+        ));
     }
     let n_out = outcomes.lock().unwrap().len() as u64;
     let execs = execs.load(Ordering::Relaxed);
